@@ -415,6 +415,15 @@ def job_gates(group, tier="quick", seed=0, part=0, parts=1):
             return herm and _same_channel(_expm_herm(h), u), "exp(-iH) != U up to a phase / H not Hermitian"
         t.guard("hamiltonian-exponential==unitary", entry, lind, "H is Hermitian and exp(-iH) == U up to a global phase")
 
+        def hvec():
+            h = el.generate_hamiltonian_mat_from_gate_name(name, dims, ids)
+            v = el.generate_hamiltonian_vec_from_gate_name(name, dims, ids)
+            basis = [np.asarray(b.toarray() if hasattr(b, "toarray") else b) for b in c.basis()]
+            ref = np.array([np.trace(b.conj().T @ h) for b in basis])
+            return close(np.asarray(v, dtype=complex), ref), "hamiltonian_vec is not the coefficient vector of hamiltonian_mat"
+        t.guard("hamiltonian-vector==coefficients-of-hamiltonian-matrix", entry, hvec,
+                "hamiltonian_vec[a] == Tr(B_a^dagger H) for the catalogued Hamiltonian matrix H (traceful part included)")
+
         def lmat():
             lm = el.generate_effective_lindbladian_mat_from_gate_name(name, dims, ids)
             m = gt.generate_gate_mat_from_gate_name(name, dims, ids)
